@@ -115,7 +115,9 @@ fn run_cli_case(prop: &str, bin: &Path, dir: &Path, case: &ProcCase) -> Option<V
     let exit_ok = code == Some(0);
     let codes = error_codes(&stderr);
     let describe = format!("`ironplcc {cmd} {args:?}` ({label}) exit={code:?} stdout-tail={:?} codes={codes:?}; in-process prediction: ok={predicted_ok} codes={predicted_codes:?}", stdout.lines().last().unwrap_or(""));
-    if !matches!(code, Some(0) | Some(1)) {
+    // killed by a signal, or Rust's panic status: abnormal. Any other non-zero status is "failure"
+    // (the property distinguishes zero from non-zero only).
+    if code.is_none() || code == Some(101) {
         return Some(viol(prop, "abnormal-exit", describe));
     }
     if exit_ok != *predicted_ok {
